@@ -132,6 +132,7 @@ def case_axisymmetric_revolve(rep):
         um = fem.NeoHooke(mu=1.0, bulk=3.0)
         r_axi = fem.SolidBody(um, field).assemble.vector(field).toarray().reshape(-1, 2)
         errs = []
+        ress = []
         for nphi in (8, 16, 32):
             m3 = mesh.revolve(n=nphi + 1, phi=360, axis=0)
             reg3 = fem.RegionHexahedron(m3)
@@ -149,6 +150,13 @@ def case_axisymmetric_revolve(rep):
             np.add.at(res[:, 0], owner, r3[:, 0])
             np.add.at(res[:, 1], owner, r3[:, 1] * np.cos(phi) + r3[:, 2] * np.sin(phi))
             errs.append(maxabs(res - r_axi) / maxabs(r_axi))
+            ress.append(res.copy())
+        # Richardson extrapolation of the two finest sector counts (second-order convergence): a consistent error of the
+        # axisymmetric formulation of a few 1e-3 is below the discretisation error of 32 sectors, not below the extrapolated one
+        rich = (4 * ress[2] - ress[1]) / 3
+        run.compare("reduced.axisymmetric", "clause=revolved-3d-model-extrapolated", maxabs(rich - r_axi) / maxabs(r_axi), 5e-4,
+                    "ring resultants of the revolved 3D model, extrapolated in the number of sectors, differ from the axisymmetric nodal forces",
+                    unit="axisymmetric:revolve-extrapolated", config=("revolve-richardson", rep))
         ok = errs[0] > errs[1] > errs[2] and errs[0] / errs[1] > 3.0 and errs[1] / errs[2] > 3.0 and errs[2] < 2e-2
         if ok:
             run.ok("reduced.axisymmetric", unit="axisymmetric:revolve-convergence", config=("revolve", rep),
@@ -308,7 +316,7 @@ def cases(tier, seed):
 SPEC = {
     "required_units": ["planestrain:force:quad", "planestrain:force:quad8", "planestrain:force:quad9", "planestrain:stiffness:quad",
                        "planestrain:stiffness:quad8", "planestrain:stiffness:quad9", "axisymmetric:energy:quad", "axisymmetric:energy:quad8",
-                       "axisymmetric:energy:triangle", "axisymmetric:energy:triangleMINI", "axisymmetric:revolve-convergence", "condensed:u:3d", "condensed:u:planestrain",
+                       "axisymmetric:energy:triangle", "axisymmetric:energy:triangleMINI", "axisymmetric:revolve-convergence", "axisymmetric:revolve-extrapolated", "condensed:u:3d", "condensed:u:planestrain",
                        "condensed:u:axisymmetric", "condensed:p:3d", "condensed:J:3d", "condensed:bulk:1", "condensed:bulk:2", "condensed:bulk:3", "condensed:state:3d", "condensed:restart:3d", "condensed:restart:axisymmetric",
                        "planestrain:parallel", "condensed:variant:NeoHooke|ThreeFieldVariation", "condensed:variant:tt.yeoh|NearlyIncompressible",
                        "uniform:vector", "uniform:matrix", "uniform:vector:axisymmetric", "uniform:matrix:axisymmetric", "uniform:constant:linear-elastic-matrix", "uniform:constant:mass", "uniform:constant:body-force"],
